@@ -14,7 +14,7 @@ func runC02(c *ev.Ctx) {
 	c.Rule = "same generator and orders as C01. Oracle per block: the set of events handed to ApplyEvent equals (ancestors-or-self of the Atropos by the reference's graph closure) minus everything delivered by earlier blocks of the epoch; " +
 		"no event is applied twice in an epoch (within or across blocks); every delivered event's parents were delivered in the same or an earlier block; frames are 1,2,3,... per epoch; the Atropos is a root of the block's frame by the reference and (every second run) by the store's GetFrameRoots. " +
 		"Plus long epochs of more than 65536 frames (one validator; and a 3:1 pair with the light validator joining now and then) checked by the same delivery rules with ancestry computed by a DFS that stops at delivered events (no reference election). " +
-		"Plus same-epoch Reset: an instance that delivered an epoch is Reset to that same epoch and set and fed the same events again (twice, two orders): every block hands over the same events as the first time. " +
+		"Plus six scripted DAGs (seven equal validators) in which two consecutive Atropoi do not observe one another and the later one has the smaller Lamport time, two of them with a light validator whose fork twins go one into each of the two Atropoi; same delivery oracle (DFS that stops at delivered events). Plus same-epoch Reset: an instance that delivered an epoch is Reset to that same epoch and set and fed the same events again (twice, two orders): every block hands over the same events as the first time. " +
 		"non-trivial = distinct DAG fingerprint with >=3 blocks of which >=1 delivers more than one event"
 	c.Assumptions = []string{"reference ancestry = transitive closure over the parents lists", "cheaters < 1/3"}
 	o := &campOpts{nDAGs: c.Pick(300, 6000), orders: c.Pick(4, 6), maxN: c.Pick(10, 16), minEvents: 60, maxEvents: c.Pick(350, 700), maxEpochs: 3,
@@ -42,6 +42,7 @@ func runC02(c *ev.Ctx) {
 			return false
 		}}
 	// one epoch with more than 65536 frames (frame numbers and confirmed-on marks beyond 16 bits), checked without the reference
+	c.Parallel(6, 0, func(i int) { c02Scripted(c, i) })
 	nLong := 2
 	c.Parallel(nLong, 0, func(i int) { c02LongEpoch(c, i, 66200+3000*i) })
 	c.Parallel(c.Pick(300, 5000), 0, func(i int) { c02ResetReplay(c, i) })
